@@ -111,6 +111,21 @@ def run(chk, prog):
         chk.decide(RA, chk.key(RA, 'Story::reset_state', 'whole-state'), whole,
                    'Story::state is replaced as a whole', 'reset_state updates the state field-wise instead of replacing '
                    'it: residue of the old state can survive', rs.loc(0))
+        # nothing of the old state is written back into the fresh one
+        fieldwise = []
+        for bb, si, st in rs.stmts():
+            if st['k'] == 'assign':
+                pes = [pe for pe in st['pl'].get('p', []) if pe['k'] == 'field' and 'adt' in pe]
+                if len(pes) >= 2 and tyname(pes[0]['adt']) == 'Story' and pes[0].get('n') == 'state':
+                    fieldwise.append((rs.loc(bb, si), '.'.join(pe.get('n', '?') for pe in pes)))
+        for e in eff.events(rs):
+            if e['kind'] in ('mutator', 'interior') and any(f.startswith('StoryState::') for f in e['fields']):
+                fieldwise.append((rs.loc(e['bb']), e['what']))
+        chk.decide(RA, chk.key(RA, 'Story::reset_state', 'no-fieldwise-restore'), not fieldwise,
+                   'reset_state writes no individual field of the fresh state',
+                   'reset_state writes individual fields of the state besides replacing it (%s): whatever it carries '
+                   'over from the old history makes the reset story differ from a freshly constructed one'
+                   % [w for _, w in fieldwise][:3], fieldwise[0][0] if fieldwise else None)
         # same constructor arguments as Story::new (program + list definitions)
         for fn in (rs, new):
             for bb, t in fn.calls():
